@@ -132,15 +132,13 @@ func (s *sharedEntryAttributes) toXmlInternal(parent *etree.Element, onlyNewOrUp
 			return true, nil
 		case s.GetSchema().GetContainer().IsPresence && s.containsOnlyDefaults():
 			// process presence cotnainers with no childs
-			if onlyNewOrUpdated {
-				// presence containers have leafvariantes with typedValue_Empty, so check that
-				if s.leafVariants.shouldDelete() {
-					return false, nil
-				}
-				le := s.leafVariants.GetHighestPrecedence(false, false)
-				if onlyNewOrUpdated && !(le.IsNew || le.IsUpdated) {
-					return false, nil
-				}
+			// presence containers have leafvariantes with typedValue_Empty, so check that,
+			// with the same selection the other encodings use
+			if s.leafVariants.shouldDelete() {
+				return false, nil
+			}
+			if le := s.leafVariants.GetHighestPrecedence(onlyNewOrUpdated, false); le == nil {
+				return false, nil
 			}
 			newElem := parent.CreateElement(s.PathName())
 			// process the honorNamespace instruction
